@@ -40,6 +40,14 @@ def render_idx(i):
     return lit(i)
 
 
+BIG_FORMS = ["({} // 1)", "(2^64 - 2^64 + {})", "({} << 0)"]
+
+
+def render_idx_big(i, k):
+    """the same integer held in big representation (results of //, big arithmetic, <<)"""
+    return BIG_FORMS[k % len(BIG_FORMS)].format(lit(i)) if isinstance(i, int) else render_idx(i)
+
+
 def model_idx(i):
     if i in ("f", "q"):
         return "f"
@@ -166,6 +174,19 @@ def gen_cases(ctx):
                     mb = "_" if b is None else model_idx(b)
                     cases.append(dict(kind=kind, n=n, op="slice", form=op, args=[a, b], src=src,
                                       model=f"{'sslice' if st else 'slice'} {L} {ma} {mb}"))
+            # the same reads with the index / bounds held in big representation (x // 1, 2^64-2^64+x, x << 0)
+            for bi, i in enumerate(j for j in idxs(L, small=True)):
+                Ib = render_idx_big(i, bi)
+                mi = model_idx(i)
+                cases.append(dict(kind=kind, n=n, op="index", form="expr-bigrep", args=[i], src=f"{X}[{Ib}]",
+                                  model=f"{'sindex' if st else 'index'} {L} {mi}"))
+                if not st:
+                    cases.append(dict(kind=kind, n=n, op="safe", form="op-bigrep", args=[i], src=f"{X} !? {Ib}", model=f"safe {L} {mi}"))
+                    cases.append(dict(kind=kind, n=n, op="cyc", form="op-bigrep", args=[i], src=f"{X} !% {Ib}", model=f"cyc {L} {mi}"))
+                cases.append(dict(kind=kind, n=n, op="slice", form="expr-bigrep", args=[i, None], src=f"{X}[{Ib}:]",
+                                  model=f"{'sslice' if st else 'slice'} {L} {mi} _"))
+                cases.append(dict(kind=kind, n=n, op="slice", form="take-bigrep", args=[None, i], src=f"{X} take {Ib}",
+                                  model=f"{'sslice' if st else 'slice'} {L} _ {mi}"))
             for k, name in ((0, "first"), (1, "second"), (2, "third"), (-1, "last")):
                 cases.append(dict(kind=kind, n=n, op="index", form=name, args=[k], src=f"{name}({X})",
                                   model=f"{'sindex' if st else 'lin'} {L} {k}"))
@@ -198,6 +219,11 @@ def gen_cases(ctx):
                 I = render_idx(i)
                 mi = model_idx(i)
                 cases.append(dict(kind=kind, n=n, op="set", form="assign", args=[i], src=f"x := {X}; x[{I}] = {V}; x", model=f"set {n} {mi}"))
+                cases.append(dict(kind=kind, n=n, op="setkeep", form="assign-caught", args=[i],
+                                  src=f"x := {X}; y := x; r := try (x[{I}] = {V}; 0) catch e -> 1; [r, x, y]", model=f"set {n} {mi}"))
+                if isinstance(i, int) and -n - 1 <= i <= n:
+                    cases.append(dict(kind=kind, n=n, op="set", form="assign-bigrep", args=[i],
+                                      src=f"x := {X}; x[{render_idx_big(i, i)}] = {V}; x", model=f"set {n} {mi}"))
                 if kind == "list":  # |.. and remove exist for lists (and dicts) only
                     cases.append(dict(kind=kind, n=n, op="set", form="update", args=[i], src=f"{X} |.. [{I}, {V}]", model=f"set {n} {mi}"))
                     cases.append(dict(kind=kind, n=n, op="rm", form="remove", args=[i], src=f"x := {X}; r := remove x[{I}]; [r, x]", model=f"rm {n} {mi}"))
@@ -263,6 +289,9 @@ def positions(s):
 def expected_from_model(c, m):
     """translate the model's answer (in positions) into the canonical text the harness prints"""
     kind, op = c["kind"], c["op"]
+    if c["op"] == "setkeep" and m == "err":
+        keep = sub(c["kind"], list(range(c["n"])))
+        return "ok L[I1," + keep + "," + keep + "]"
     if m in ("err", "panic", "fuel"):
         return m
     assert m.startswith("ok "), m
@@ -276,6 +305,9 @@ def expected_from_model(c, m):
             tag, l = body.split(" ", 1)
             return "ok " + sub(kind, positions(l), as_stream=(tag == "S"))
         return "ok " + sub(kind, positions(body))
+    if op == "setkeep":
+        inner = expected_from_model(dict(c, op="set"), m)
+        return "ok L[I0," + inner[3:] + "," + sub(kind, list(range(c["n"]))) + "]"
     if op == "set":
         ps = positions(body)
         els = []
@@ -337,6 +369,15 @@ def oracle(c):
         return "ok L[" + sub(kind, list(range(0, n - 1))) + "," + elem(kind, n - 1) + "]"
     if op == "only":
         return "ok " + elem(kind, 0) if n == 1 else "err"
+    if op == "setkeep":
+        i = a[0]
+        p = py_index(n, i) if isinstance(i, int) else None
+        keep = sub(kind, list(range(n)))
+        if p is None:
+            return "ok L[I1," + keep + "," + keep + "]"
+        xs = list(range(n))
+        xs[p] = -1
+        return "ok L[I0," + expected_from_model(dict(c, op="set"), "ok [" + ",".join(map(str, xs)) + "]")[3:] + "," + keep + "]"
     if op == "set":
         i = a[0]
         p = py_index(n, i) if isinstance(i, int) else None
@@ -470,7 +511,7 @@ def run(ctx):
     cases = gen_cases(ctx)
     if ctx.quick():
         # quick: every case of length <= 3 and all forms; longer lengths only in expression form
-        cases = [c for c in cases if c["n"] <= 3 or c["kind"] == "mbstring" or c["form"] in ("expr", "assign", "remove", "op", "path2")]
+        cases = [c for c in cases if c["n"] <= 3 or c["kind"] == "mbstring" or c["form"] in ("expr", "assign", "remove", "op", "path2", "expr-bigrep", "op-bigrep", "take-bigrep", "assign-caught", "assign-bigrep")]
     bad = evaluate(ctx, cases, runner)
     report(ctx, bad)
     nt = {(c["kind"], c["n"], c["op"], c["form"], json.dumps(c["args"])) for c in cases if nontrivial(c)}
@@ -478,7 +519,7 @@ def run(ctx):
         "evaluations": len(cases), "distinct_nontrivial": len(nt), "exhaustive": True,
         "rule": "exhaustive grid: 12 sequence kinds (list,string,multi-byte string,vector,bytes,range stream,stream(list),lazy_map stream, and the three stream kinds after a prefix was consumed by drop/tail) x lengths 0..5 x "
                 "indices/bounds in [-len-3,len+3] + {+-2^31,+-(2^63-1),-2^63,2^63,-2^63-1,+-2^64,10^30, 1.0, 1/2, \"a\", null} x surface forms "
-                "(expression, !!, index(), underscore section, first..last, tail/butlast/take/drop, !?, !%, uncons/unsnoc/only, x[i]=v, |.., remove, pop), plus two-level paths x[i][j] (read, =, +=, remove) over rows of length 3,2,1,0. "
+                "(expression, !!, index(), underscore section, first..last, tail/butlast/take/drop, !?, !%, uncons/unsnoc/only, x[i]=v, |.., remove, pop), plus two-level paths x[i][j] (read, =, +=, remove) over rows of length 3,2,1,0; small indices/bounds also held in big representation (i // 1, 2^64-2^64+i, i << 0); failed writes caught and the variable and an alias re-read. "
                 "non-trivial = some index/bound is negative, out of range, extreme or non-integer, or the sequence is a stream / multi-byte string; "
                 "distinct by (kind,len,op,form,args)",
         "samples": [{"program": c["src"], "implementation": c["impl"], "coq_model": c["model_says"]} for c in cases[::max(1, len(cases) // 12)]][:12],
